@@ -35,6 +35,9 @@ type Expr struct {
 	Kids  []*Expr  `json:"c,omitempty"`
 	Keys  []string `json:"keys,omitempty"`
 	Wrap  int      `json:"w,omitempty"` // redundant parentheses around this node
+	// KeyStyle (object literals): 0 bare keys, 1 "double-quoted" keys, 2 'single-quoted'
+	// keys, 3 shorthand {name} for entries whose value is the variable of that name
+	KeyStyle int `json:"ks,omitempty"`
 }
 
 func Int(v int64, text string) *Expr     { return &Expr{Kind: EInt, Int: v, Text: text} }
